@@ -123,6 +123,21 @@ func HasData(dir string) (bool, error) {
 	if !fsutil.DirExists(dir) {
 		return false, nil
 	}
+	// A node last run by an earlier release keeps its snapshots in an old-format
+	// directory, which is only upgraded when the Store is opened. They are data too.
+	for _, old := range []string{old7SnapshotsDirName, old8SnapshotsDirName} {
+		oldDir := filepath.Join(dir, old)
+		if !fsutil.DirExists(oldDir) {
+			continue
+		}
+		empty, err := fsutil.DirIsEmpty(oldDir)
+		if err != nil {
+			return false, err
+		}
+		if !empty {
+			return true, nil
+		}
+	}
 	sstr, err := snapshot.NewStore(filepath.Join(dir, snapshotsDirName))
 	if err != nil {
 		return false, err
